@@ -340,6 +340,12 @@ def _(env, I, T):
                                             'new_key': '1', 'csrf_token': T['kids']})
 
 
+@action('add key (POST form, kid typed in upper case)')
+def _(env, I, T):
+    return _req(env, 'POST', '/key', data={'hkid': 'AB0E0D0C0B0A09080706050403020100', 'hkey': '000000000000000000000000000000AB',
+                                            'new_key': '1', 'csrf_token': T['kids']})
+
+
 @action('edit key 1')
 def _(env, I, T):
     kpk = I['keys'].get('1ab45440532c439994dc5c5ad9584bac', 999)
